@@ -11,6 +11,7 @@
 From Coq Require Import Lia ZArith Relations.
 From Hoot Require Import Base Chunk Body Httparse Parser Url Request Call Flow.
 From Hoot.proofs Require Import BytesLemmas Reasons C05_stable C05_spec C05_roundtrip C20_proofs C05_proofs.
+From Hoot.proofs Require AfterErr.
 Open Scope N_scope.
 
 (** ** Close reasons: what [add_reason] returns on a duplicate-free list *)
@@ -551,6 +552,8 @@ Inductive later_op : tag * inner -> tag * inner -> Prop :=
     recv_response_proceed f = Ok (Some (t, f')) -> later_op (TRecvResponse, f) (t, f')
 | LRead f w cap f' n o :
     recv_body_read f w cap = Ok (f', n, o) -> later_op (TRecvBody, f) (TRecvBody, f')
+| LReadErr f w cap e :   (* a failed read leaves the decoder in the state it reached (Flow.recv_body_after_err) *)
+    recv_body_read f w cap = Err e -> later_op (TRecvBody, f) (TRecvBody, recv_body_after_err f w cap)
 | LStop f b f' :
     recv_body_stop f b = Ok f' -> later_op (TRecvBody, f) (TRecvBody, f')
 | LBodyProceed f t f' :
@@ -656,6 +659,8 @@ Proof.
     repeat split; [tauto|congruence|auto].
   - apply recv_body_read_keeps in H. destruct H as (H1 & _ & H3).
     repeat split; [auto|congruence|congruence].
+  - rewrite AfterErr.recv_body_after_err_should, AfterErr.recv_body_after_err_reasons.
+    repeat split; assumption.
   - apply recv_body_stop_keeps in H. destruct H as (H1 & _ & H3).
     repeat split; [auto|congruence|congruence].
   - apply recv_body_proceed_keeps in H. destruct H as (H0 & ->).
